@@ -335,8 +335,8 @@ type seg struct {
 
 func buildJournal(r *common.Rand, ps, sector int, dbSize uint32, segs []seg, pre func(pg uint32) []byte) []byte {
 	var out []byte
-	nonce := uint32(r.U64())
 	for _, s := range segs {
+		nonce := uint32(r.U64()) // SQLite draws a fresh checksum nonce for every journal header
 		// sector-align
 		for len(out)%sector != 0 {
 			out = append(out, 0)
